@@ -39,6 +39,12 @@ TEXT.update({
     "C07": {"technique": "runtime monitor: structural invariant at a hook (walk mirror, node set == buckets, lookup identity) after every event + ASan/Miri memory-error detection",
             "design_ref": "DESIGN.md sections 3.7 and 5 C07", "level_note": _MEM_NOTE + " 'Moved out of' for Copy link fields is not observable by any tool (DESIGN section 1).",
             "level_text": "Exploration with reallocation (grow and shrink, explicit and automatic) at high frequency, constant hasher included, caches from empty to thousands of entries under ASan."},
+    "C08": {"technique": "runtime monitor: differential check of heap_size/value_size/mem_size and the four bulk helpers against an independently stated composition law over a generated type matrix; totality by subprocess exit status at opt-level 0",
+            "design_ref": "DESIGN.md section 5 C08", "level_note": "Trusted base: the harness' own statement of the laws (memsize.rs `Spec`), rustc. Mutex/RwLock poisoning and re-entrant locking are outside C08's quantifier and not explored.",
+            "level_text": "Exploration over generated values of 115 concrete nestings; element counts up to 10^7 for the totality clause (restating 'however many elements' as a bound)."},
+    "C09": {"technique": "runtime monitor: counting global allocator with attribution scopes as ground truth for owned buffers",
+            "design_ref": "DESIGN.md section 5 C09", "level_note": "Trusted base: the harness' global allocator wrapper (Layout::size() of every alloc/realloc/dealloc made while the value is built), std's allocation behaviour on this target (Mutex/RwLock allocate nothing on Linux).",
+            "level_text": "Exploration: every relation between length and capacity at every nesting level reached by random build plans; equality is exact, so a single missed byte of spare capacity is reported."},
     "C12": {"technique": "exhaustive enumeration of next/next_back call strings per iterator kind and length, oracle from the observed pre-state; ASan + Miri on the same cases",
             "design_ref": "DESIGN.md section 5 C12", "level_note": _MEM_NOTE,
             "level_text": "Exploration, exhaustive within the stated bound (all call strings for lengths 0..=7 quick / 0..=10 thorough), random beyond it. The bound is what limits the claim."},
@@ -63,4 +69,4 @@ TEXT.update({
 })
 
 NOT_APPLICABLE = {p: "check under construction in this revision (see DESIGN.md section 5); will be claimed once its monitor exists" for p in
-                  ["C08", "C09", "C18", "C19"]}
+                  ["C18", "C19"]}
